@@ -104,7 +104,7 @@ Section Sound.
 
   (** the specification world that corresponds to the evaluator's world *)
   Definition SW : sworld V :=
-    {| sw_nb := xw_nb W; sw_inputs := xw_inputs W;
+    {| sw_nb := xw_nb W; sw_np := xw_np W; sw_inputs := xw_inputs W;
        sw_env := fun s i => den O (xw_env W s i);
        sw_hasoff := xw_hasoff W; sw_gflag := xw_gflag W; sw_rflag := xw_rflag W;
        sw_access := xw_access W; sw_fn := sfn |}.
@@ -239,7 +239,9 @@ Section Sound.
   Proof. destruct ix as [[i j] n]. reflexivity. Qed.
 
   Lemma start_sval_zero d ix sv : start_sval W d ix = Some sv -> all_zero (idx_n ix) = true.
-  Proof. unfold start_sval. destruct (all_zero (idx_n ix)); [auto | discriminate]. Qed.
+  Proof.
+    unfold start_sval, x_start_index. destruct (all_zero (idx_n ix)); [auto | cbn; discriminate].
+  Qed.
 
   Lemma mok_del n x ix' :
     ~ is_input x -> mok n (del_ alg W x ix') (fun _ => True).
@@ -581,5 +583,195 @@ Section Sound.
             cbn [ibody] in E. rewrite Lw in E. eauto.
     Qed.
     End Body.
+
+    (* ------------------------------------------------------------------ products *)
+
+    Local Notation "a + b" := (vadd O a b).
+    Local Notation "a * b" := (vmul O a b).
+    Local Notation vz := (v0 O).
+
+    Definition contrib (r : option V) : V := match r with None => vz | Some t => t end.
+
+    Lemma lazy_term_char c (fa fb : unit -> option V) r :
+      lazy_term O c fa fb = Some r ->
+      match fa tt, fb tt with
+      | Some a, Some b => contrib r == a * b
+      | Some a, None => a == vz /\ contrib r == vz
+      | None, Some b => b == vz /\ contrib r == vz
+      | None, None => False
+      end.
+    Proof.
+      pose proof (vl_equiv L) as EQ.
+      unfold lazy_term. destruct c.
+      - destruct (fa tt) as [a|]; [destruct (vis0 O a) eqn:Z|].
+        + intros E. inversion E; subst. apply (l_is0 L) in Z.
+          destruct (fb tt); cbn; [rewrite Z; symmetry; apply (l_mul_0_l L) | split; [auto|reflexivity]].
+        + destruct (fb tt); intros E; inversion E; subst. cbn. reflexivity.
+        + destruct (fb tt) as [b|]; [|discriminate]. destruct (vis0 O b) eqn:Z; [|discriminate].
+          intros E. inversion E; subst. apply (l_is0 L) in Z. split; [auto | reflexivity].
+      - destruct (fb tt) as [b|]; [destruct (vis0 O b) eqn:Z|].
+        + intros E. inversion E; subst. apply (l_is0 L) in Z.
+          destruct (fa tt); cbn; [rewrite Z; symmetry; apply (l_mul_0_r L) | split; [auto|reflexivity]].
+        + destruct (fa tt); intros E; inversion E; subst. cbn. reflexivity.
+        + destruct (fa tt) as [a|]; [|discriminate]. destruct (vis0 O a) eqn:Z; [|discriminate].
+          intros E. inversion E; subst. apply (l_is0 L) in Z. split; [auto | reflexivity].
+    Qed.
+
+    Definition racc_next (hp : bool) (racc : V) (r : option V) : V :=
+      match r with
+      | None => racc
+      | Some t => if hp then (racc + t) + vadj O t else racc + t
+      end.
+
+    Lemma racc_next_zero hp racc r : contrib r == vz -> racc_next hp racc r == racc.
+    Proof.
+      pose proof (vl_equiv L) as EQ.
+      destruct r as [t|]; cbn; intros Z; [|reflexivity].
+      destruct hp; rewrite Z, ?(l_adj_0 L), ?(add_0_r L); reflexivity.
+    Qed.
+
+    Lemma racc_next_val (hp : bool) racc r x a :
+      x == contrib r -> a == racc ->
+      (if hp then (a + x) + vadj O x else a + x) == racc_next hp racc r.
+    Proof.
+      pose proof (vl_equiv L) as EQ.
+      intros Hx Ha. destruct r as [t|]; cbn in *.
+      - destruct hp; rewrite Hx, Ha; reflexivity.
+      - destruct hp; rewrite Hx, Ha, ?(l_adj_0 L), ?(add_0_r L); reflexivity.
+    Qed.
+
+    Lemma mk_term_ok n idx a b :
+      ole (idx_n idx) n -> is_zero a = false -> is_zero b = false ->
+      mok n (mk_term O W idx a b) (fun t => den O t == den O a * den O b).
+    Proof.
+      pose proof (vl_equiv L) as EQ.
+      intros Hn Za Zb. destruct a, b; try discriminate; cbn [mk_term].
+      - apply mok_ret. cbn. symmetry. apply (l_mul_1_l L).
+      - apply mok_ret. cbn. symmetry. apply (l_mul_1_l L).
+      - apply mok_ret. cbn. symmetry. apply (l_mul_1_r L).
+      - eapply mok_bind with (P := fun _ => True).
+        + apply mok_tick; [exact Hn | intros; discriminate].
+        + intros _ _. apply mok_ret. reflexivity.
+    Qed.
+
+    Lemma accumulate_ok n hp acc t :
+      mok n (accumulate O hp acc t)
+          (fun a => a = a /\ den O a == if hp then (den O acc + den O t) + vadj O (den O t) else den O acc + den O t).
+    Proof.
+      pose proof (vl_equiv L) as EQ.
+      unfold accumulate. destruct hp.
+      - eapply mok_bind; [apply mok_lift; intros x Ex; exact (den_sadd L _ _ Ex)|]. intros x Hx.
+        eapply mok_bind; [apply mok_lift; intros d Ed; exact (den_sdagger L _ Ed)|]. intros d Hd.
+        apply mok_lift. intros z Ez. split; auto. rewrite (den_sadd L _ _ Ez), Hx, Hd. reflexivity.
+      - apply mok_lift. intros z Ez. split; auto. exact (den_sadd L _ _ Ez).
+    Qed.
+
+    Definition pair_ok (n : list nat) (p : nat * list nat) : Prop :=
+      ole (snd p) n /\ ole (lsub n (snd p)) n.
+
+    Definition loop_post (half : bool) (idx : index) (k1 k2 : key) (l : list (nat * list nat))
+               (acc v : sval V) : Prop :=
+      forall fu racc w, den O acc == racc ->
+        iprod_loop O (spec fu) idx half k1 k2 l racc = Some w -> den O v == w.
+
+    Lemma pbo_loop_ok tb k1 k2 half idx l :
+      Forall (pair_ok (idx_n idx)) l ->
+      forall acc,
+        mok (idx_n idx) (pbo_loop O W rec tb k1 k2 half idx l acc) (loop_post half idx k1 k2 l acc).
+    Proof.
+      pose proof (vl_equiv L) as EQ.
+      intros Hl. induction Hl as [|[mid m1] r [Hm1 Hm2] Hr IH]; intros acc; cbn [pbo_loop].
+      - apply mok_ret. intros fu racc w HR E. cbn in E. inversion E; subst. exact HR.
+      - cbn [snd] in Hm1, Hm2.
+        set (m2 := lsub (idx_n idx) m1) in *.
+        set (i1 := (idx_i idx, mid, m1)). set (i2 := (mid, idx_j idx, m2)).
+        destruct (half && lex_gt m1 m2) eqn:LX.
+        { eapply mok_weaken; [apply IH|]. intros v Hv fu racc w HR E. cbn [iprod_loop] in E.
+          fold m2 in E. rewrite LX in E. eauto. }
+        (* what the specification does with this term *)
+        assert (SPEC : forall fu racc w,
+                   iprod_loop O (spec fu) idx half k1 k2 ((mid, m1) :: r) racc = Some w ->
+                   exists r', lazy_term O (Nat.leb (cost m1) (cost m2)) (fun _ => spec fu k1 i1) (fun _ => spec fu k2 i2) = Some r'
+                              /\ iprod_loop O (spec fu) idx half k1 k2 r
+                                   (racc_next (half && negb (lnat_eqb m1 m2)) racc r') = Some w).
+        { intros fu racc w E. cbn [iprod_loop] in E. fold m2 i1 i2 in E. rewrite LX in E.
+          destruct (lazy_term O (Nat.leb (cost m1) (cost m2)) (fun _ => spec fu k1 i1) (fun _ => spec fu k2 i2)) as [r'|]; [|discriminate].
+          exists r'. split; auto. destruct r' as [t|]; cbn [racc_next]; auto.
+          destruct (half && negb (lnat_eqb m1 m2)); auto. }
+        (* skipping the term is sound when one factor is known to be zero *)
+        assert (SKIP : (agrees SZero k1 i1 \/ agrees SZero k2 i2) ->
+                       forall v, loop_post half idx k1 k2 r acc v -> loop_post half idx k1 k2 ((mid, m1) :: r) acc v).
+        { intros K v Hv fu racc w HR E. destruct (SPEC _ _ _ E) as (r' & Er & El).
+          apply (Hv fu (racc_next (half && negb (lnat_eqb m1 m2)) racc r') w); [|exact El]. rewrite racc_next_zero; auto.
+          apply lazy_term_char in Er. cbn beta in Er.
+          destruct (spec fu k1 i1) as [a'|] eqn:Ea, (spec fu k2 i2) as [b'|] eqn:Eb; try tauto.
+          destruct K as [K|K].
+          - rewrite Er, <- (K _ _ Ea). cbn. apply (l_mul_0_l L).
+          - rewrite Er, <- (K _ _ Eb). cbn. apply (l_mul_0_r L). }
+        (* computing the term *)
+        assert (FULL : forall a b, agrees a k1 i1 -> agrees b k2 i2 -> is_zero a = false -> is_zero b = false ->
+                   mok (idx_n idx)
+                       (bind (mk_term O W idx a b) (fun t =>
+                          bind (accumulate O (half && negb (lnat_eqb m1 m2)) acc t) (fun acc' =>
+                            pbo_loop O W rec tb k1 k2 half idx r acc')))
+                       (loop_post half idx k1 k2 ((mid, m1) :: r) acc)).
+        { intros a b Ha Hb Za Zb.
+          eapply mok_bind; [apply mk_term_ok; auto using ole_refl|]. intros t Ht.
+          eapply mok_bind; [apply accumulate_ok|]. intros acc' [_ Hacc].
+          eapply mok_weaken; [apply IH|]. intros v Hv fu racc w HR E.
+          destruct (SPEC _ _ _ E) as (r' & Er & El).
+          apply (Hv fu (racc_next (half && negb (lnat_eqb m1 m2)) racc r') w); [|exact El]. rewrite Hacc. apply racc_next_val; auto.
+          apply lazy_term_char in Er. cbn beta in Er. rewrite Ht.
+          destruct (spec fu k1 i1) as [a'|] eqn:Ea, (spec fu k2 i2) as [b'|] eqn:Eb; try tauto.
+          - rewrite Er, (Ha _ _ Ea), (Hb _ _ Eb). reflexivity.
+          - destruct Er as [Z1 Z2]. rewrite Z2, (Ha _ _ Ea), Z1. apply (l_mul_0_l L).
+          - destruct Er as [Z1 Z2]. rewrite Z2, (Hb _ _ Eb), Z1. apply (l_mul_0_r L). }
+        assert (SKIPA : forall a, agrees a k1 i1 -> is_zero a = true -> agrees SZero k1 i1).
+        { intros a Ha Z. destruct a; try discriminate. exact Ha. }
+        assert (SKIPB : forall b, agrees b k2 i2 -> is_zero b = true -> agrees SZero k2 i2).
+        { intros b Hb Z. destruct b; try discriminate. exact Hb. }
+        assert (N1 : ole (idx_n i1) (idx_n idx)) by exact Hm1.
+        assert (N2 : ole (idx_n i2) (idx_n idx)) by exact Hm2.
+        intros stack s r0 s' I E NO.
+        destruct (negb (contains tb k1 i1 s) || negb (contains tb k2 i2 s)) eqn:C.
+        + (* pre-skip: an evaluated factor is the sentinel zero *)
+          assert (K : agrees SZero k1 i1 \/ agrees SZero k2 i2).
+          { apply orb_true_iff in C. destruct C as [C|C]; [left|right];
+              unfold contains in C; apply negb_true_iff in C.
+            - match type of C with context [st_lookup s ?kk] => destruct (st_lookup s kk) as [[|[| |]]|] eqn:Lk end; try discriminate C.
+              eapply (inv_done I); eauto.
+            - match type of C with context [st_lookup s ?kk] => destruct (st_lookup s kk) as [[|[| |]]|] eqn:Lk end; try discriminate C.
+              eapply (inv_done I); eauto. }
+          eapply (mok_weaken (IH acc) (SKIP K)); eauto.
+        + revert stack s r0 s' I E NO.
+          change (mok (idx_n idx)
+                    (if Nat.leb (cost m1) (cost m2)
+                     then bind (rec tb k1 i1) (fun a => if is_zero a then pbo_loop O W rec tb k1 k2 half idx r acc else
+                            bind (rec tb k2 i2) (fun b => if is_zero b then pbo_loop O W rec tb k1 k2 half idx r acc else
+                              bind (mk_term O W idx a b) (fun t =>
+                                bind (accumulate O (half && negb (lnat_eqb m1 m2)) acc t) (fun acc' =>
+                                  pbo_loop O W rec tb k1 k2 half idx r acc'))))
+                     else bind (rec tb k2 i2) (fun b => if is_zero b then pbo_loop O W rec tb k1 k2 half idx r acc else
+                            bind (rec tb k1 i1) (fun a => if is_zero a then pbo_loop O W rec tb k1 k2 half idx r acc else
+                              bind (mk_term O W idx a b) (fun t =>
+                                bind (accumulate O (half && negb (lnat_eqb m1 m2)) acc t) (fun acc' =>
+                                  pbo_loop O W rec tb k1 k2 half idx r acc')))))
+                    (loop_post half idx k1 k2 ((mid, m1) :: r) acc)).
+          destruct (Nat.leb (cost m1) (cost m2)).
+          * eapply mok_bind; [eapply mok_mono; [exact N1 | apply Hrec]|]. intros a Ha.
+            destruct (is_zero a) eqn:Za.
+            { eapply mok_weaken; [apply IH|]. apply SKIP. left. eauto. }
+            eapply mok_bind; [eapply mok_mono; [exact N2 | apply Hrec]|]. intros b Hb.
+            destruct (is_zero b) eqn:Zb.
+            { eapply mok_weaken; [apply IH|]. apply SKIP. right. eauto. }
+            now apply FULL.
+          * eapply mok_bind; [eapply mok_mono; [exact N2 | apply Hrec]|]. intros b Hb.
+            destruct (is_zero b) eqn:Zb.
+            { eapply mok_weaken; [apply IH|]. apply SKIP. right. eauto. }
+            eapply mok_bind; [eapply mok_mono; [exact N1 | apply Hrec]|]. intros a Ha.
+            destruct (is_zero a) eqn:Za.
+            { eapply mok_weaken; [apply IH|]. apply SKIP. left. eauto. }
+            now apply FULL.
+    Qed.
   End WithRec.
 End Sound.
